@@ -26,6 +26,15 @@ ASSUMPTIONS = ["lexical confinement only: no symlinks in the tree; POSIX separat
 SEGS = ["", ".", "..", "file.txt", "dir", "..name", "%2e%2e", "index.html", "x", "x.html", "é.txt", "nofile", "f.txt", "empty"]
 DEPTH = {"quick": 3, "thorough": 4}
 # tree below sandbox/root (the served directory); values are file contents, None = directory
+LONGDIR = "L" * 100
+
+
+class _Socket:
+    def __repr__(self):
+        return "<socket>"
+
+
+SOCKET = _Socket()
 ROOT_TREE = {
     "index.html": b"ROOT INDEX",
     "file.txt": b"FILE",
@@ -37,6 +46,14 @@ ROOT_TREE = {
     "dir/index.html": b"DIR INDEX",
     "dir/f.txt": b"DIR F",
     "empty": None,
+    # two different files of the same size (every file of the tree gets the same modification time): nothing that is derived
+    # from size and time alone may stand for a file
+    "twin_a.txt": b"TWIN A", "twin_b.txt": b"TWIN B", "dir/twin_c.txt": b"TWIN C",
+    # a file whose absolute path is longer than 255 characters although every component is short enough
+    LONGDIR: None, LONGDIR + "/" + "M" * 100: None, LONGDIR + "/" + "M" * 100 + "/" + "N" * 60: None, LONGDIR + "/" + "M" * 100 + "/" + "N" * 60 + "/deep.txt": b"DEEP FILE",
+    LONGDIR + "/" + "M" * 100 + "/" + "N" * 60 + "/index.html": b"DEEP INDEX",
+    # something that is neither a regular file nor a directory (a unix socket): not served, not found
+    "sock": SOCKET, "sock.html": SOCKET,
 }
 OUTSIDE = {"secret.txt": b"SECRET", "root.html": b"ROOT HTML OUTSIDE", "rootx/s.txt": b"SIBLING SECRET", "rootx/file.txt": b"SIBLING FILE",
            "other/root/file.txt": b"OTHER CWD FILE", "other/root/index.html": b"OTHER CWD INDEX", "file.txt": b"PARENT FILE", "index.html": b"PARENT INDEX", "dir/f.txt": b"PARENT DIR F"}
@@ -74,6 +91,16 @@ class Sandbox:
                 p = os.path.join(base, rel)
                 if data is None:
                     os.makedirs(p, exist_ok=True)
+                elif data is SOCKET:
+                    import socket
+                    sk = socket.socket(socket.AF_UNIX)
+                    cwd = os.getcwd()
+                    os.chdir(base)  # (a socket address is limited to about 100 bytes: bind by relative name)
+                    try:
+                        sk.bind(rel)
+                    finally:
+                        os.chdir(cwd)
+                        sk.close()
                 else:
                     os.makedirs(os.path.dirname(p), exist_ok=True)
                     with open(p, "wb") as f:
@@ -92,11 +119,18 @@ class Sandbox:
                 p = os.path.join(base, rel)
                 if data is None:
                     os.makedirs(p, exist_ok=True)
-                else:
+                elif isinstance(data, bytes):
                     os.makedirs(os.path.dirname(p), exist_ok=True)
                     with open(p, "wb") as f:
                         f.write(b"DECOY:" + data)
         open(os.path.join(self.decoy, "c07pkg", "__init__.py"), "w").close()
+        for base in (self.root, self.uroot):
+            for dp, dn, fn in os.walk(base):
+                for name in fn:
+                    try:
+                        os.utime(os.path.join(dp, name), (1_700_000_000, 1_700_000_000))
+                    except OSError:
+                        pass
         self.cwd0 = os.getcwd()
         if not _HOOKED:
             sys.addaudithook(_hook)
@@ -189,7 +223,7 @@ def ref(kind, path):
     rel = "/".join(comps)
     slash = path.endswith("/")
     is_dir = rel == "" or (rel in ROOT_TREE and ROOT_TREE[rel] is None)
-    is_file = rel in ROOT_TREE and ROOT_TREE[rel] is not None
+    is_file = rel in ROOT_TREE and isinstance(ROOT_TREE[rel], bytes)
     if is_file:
         if slash:
             return ("file-or-notfound", ROOT_TREE[rel])
@@ -199,13 +233,13 @@ def ref(kind, path):
     if is_dir:
         if slash:
             idx = (rel + "/" if rel else "") + "index.html"
-            return ("file", ROOT_TREE[idx]) if ROOT_TREE.get(idx) is not None else ("notfound",)
+            return ("file", ROOT_TREE[idx]) if isinstance(ROOT_TREE.get(idx), bytes) else ("notfound",)
         return ("redirect",)
     if not slash and not rel.endswith(".html"):
         h = rel + ".html"
-        if ROOT_TREE.get(h) is not None:
+        if isinstance(ROOT_TREE.get(h), bytes):
             return ("file", ROOT_TREE[h])
-    if slash and ROOT_TREE.get(rel + ".html") is not None:
+    if slash and isinstance(ROOT_TREE.get(rel + ".html"), bytes):
         return ("any-notfound-or-page", ROOT_TREE[rel + ".html"])
     return ("notfound",)
 
@@ -296,6 +330,9 @@ def all_paths(depth):
                     if p not in seen:
                         seen.add(p)
                         yield p
+    deep = "/" + LONGDIR + "/" + "M" * 100 + "/" + "N" * 60
+    for p in ("/twin_a.txt", "/twin_b.txt", "/twin_a.txt", "/dir/twin_c.txt", "/twin_b.txt", "/sock", "/sock/", "/sock.html", "/dir/../sock", deep + "/deep.txt", deep, deep + "/", deep + "/deep.txt/", deep + "/index", deep + "/../" + "N" * 60 + "/deep.txt"):
+        yield p  # (kept in this order and not de-duplicated: the twins are asked for alternately)
     for p in ("", "/", "//", "/root", "/../root/file.txt", "/../rootx/s.txt", "/../root.html", "/..", "/%00", "/file.txt/x", "/" + "a" * 300, "/x/", "/dir/index", "/..name", "/..name/"):
         if p not in seen:
             seen.add(p)
@@ -317,8 +354,8 @@ def thread_family(r, kind, tier):
         reqs = {"file": SV.AReq(path="/file.txt"), "dir-f": SV.AReq(path="/dir/f.txt"), "escape": SV.AReq(path="/../secret.txt"), "dir": SV.AReq(path="/dir"), "dirslash": SV.AReq(path="/dir/"), "page": SV.AReq(path="/x"), "nofile": SV.AReq(path="/nofile")}
         pairs = [(x, y) for x in reqs for y in reqs if x < y]
         _AUDIT["log"] = []
-        SV.wsgi_thread_pairs(r, kind, app, reqs, pairs, files, bound=1 if tier == "quick" else 2)
-        SV.asgi_task_pairs(r, kind, sb.apps("absolute")[("asgi", kind)], reqs, pairs, bound=2)
+        SV.wsgi_thread_pairs(r, kind, app, reqs, pairs, files, bound=1 if tier == "quick" else 2, factory=lambda: sb.apps("absolute")[("wsgi", kind)])
+        SV.asgi_task_pairs(r, kind, sb.apps("absolute")[("asgi", kind)], reqs, pairs, bound=2, factory=lambda: sb.apps("absolute")[("asgi", kind)])
         if _AUDIT["log"]:
             r.violation("opened-outside-directory", {"threads": kind}, f"two-thread runs of wsgi {kind} opened <sandbox>/{os.path.relpath(_AUDIT['log'][0], _AUDIT['sandbox'])}")
         r.sample({"threads": kind, "requests": list(reqs)})
